@@ -2,10 +2,13 @@
 from checks_common import three
 
 CHECK = {
-    "runs": three("c07_executor", [], scales=(0.5, 0.5, 1.0), args_thorough=["--grace", "90"]) +
+    # thorough scales: at the quick scales the TSan general run needed > 110 min on the loaded development machine
+    "runs": [dict(r, scale_thorough=st) for r, st in zip(
+        three("c07_executor", [], scales=(0.5, 0.5, 1.0), args_thorough=["--grace", "90"]), (0.15, 0.25, 0.6))] +
             # sustained local spawning against a continuously sweeping balance thread (own processes); added after
             # the seeded change C07-a2 escaped the general episodes
-            three("c07_executor", [], scales=(0.25, 0.25, 1.0), mode="storm"),
+            [dict(r, scale_thorough=st) for r, st in zip(
+                three("c07_executor", [], scales=(0.25, 0.25, 1.0), mode="storm"), (0.1, 0.15, 0.5))],
     "parallel": 6,
     "design_ref": "DESIGN.md §5 C07",
     "technique": "seeded episodes over ThreadPoolExecutor configurations (workers, global/local capacity, stealing, "
